@@ -1,5 +1,6 @@
 use crate::core::Property;
 
+pub mod c02;
 pub mod c03;
 pub mod c04;
 pub mod c06;
@@ -15,6 +16,7 @@ pub mod indic;
 
 pub fn registry() -> Vec<Box<dyn Property>> {
     vec![
+        Box::new(c02::C02),
         Box::new(c03::C03),
         Box::new(c04::C04),
         Box::new(c06::C06),
